@@ -10,6 +10,12 @@ From LunaModel Require Import SsIn.
 Open Scope N_scope.
 Ltac Zify.zify_post_hook ::= Z.div_mod_to_equations.
 
+Ltac conjs := repeat match goal with |- _ /\ _ => split end.
+Ltac done1 := first [assumption | reflexivity | (left; assumption) | (right; assumption)].
+
+Lemma some_inj : forall {A} (a b : A), Some a = Some b -> a = b.
+Proof. intros A a b H. inversion H. reflexivity. Qed.
+
 (* ------------------------------------------------------------------------------------------ *)
 (* 1. Buffers as item lists                                                                    *)
 
@@ -111,6 +117,7 @@ Section Inv.
   Variables (mps ep sb : N).
   Hypothesis Hmps8 : 8 <= mps.
   Hypothesis Hmps4 : mps mod 4 = 0.
+  Hypothesis Hmps1k : mps <= 1024.
 
   (* the buffer being filled *)
   Definition wbwf (b : buf) : Prop :=
@@ -141,13 +148,13 @@ Section Inv.
     match s_fsm s with
     | WAIT_FOR_DATA =>
         r_pend r = bitems (s_wb s) /\ wb_ready mps (s_wb s) = true /\ b_fill (s_rb s) = 0 /\
-        r_out r = false /\ r_req r = None /\ r_fly r = None /\ r_nrdy r = s_erdy s /\ s_ov s = 0
+        r_out r = false /\ r_req r = None /\ r_fly r = None /\ r_nrdy r = s_erdy s /\ s_ov s = 0 /\ s_pos s = 0
     | REQUEST_IN_TOKEN =>
         r_pend r = bitems (s_rb s) ++ bitems (s_wb s) /\ complete (s_rb s) /\
-        r_out r = false /\ r_req r = None /\ r_fly r = None /\ r_nrdy r = true /\ s_erdy s = true /\ s_ov s = 0
+        r_out r = false /\ r_req r = None /\ r_fly r = None /\ r_nrdy r = true /\ s_erdy s = true /\ s_ov s = 0 /\ s_pos s = 0
     | WAIT_TO_SEND =>
         r_pend r = bitems (s_rb s) ++ bitems (s_wb s) /\ (complete (s_rb s) \/ zlp_pending (s_rb s)) /\
-        r_out r = false /\ r_req r = None /\ r_fly r = None /\ r_nrdy r = false /\ s_erdy s = false /\ s_ov s = 0
+        r_out r = false /\ r_req r = None /\ r_fly r = None /\ r_nrdy r = false /\ s_erdy s = false /\ s_ov s = 0 /\ s_pos s = 0
     | SEND_PACKET =>
         r_pend r = bitems (s_rb s) ++ bitems (s_wb s) /\ complete (s_rb s) /\
         r_nrdy r = false /\ s_erdy s = false /\ s_lpz s = false /\
@@ -237,7 +244,10 @@ Section Inv.
     unfold wb_ready in Hr. apply andb_true_iff in Hr as [Hr1 Hr2]. apply negb_true_iff in Hr2.
     specialize (Hm Hr2). pose proof Hf as [Hf1 Hf2].
     assert (Hfl : b_fill (s_wb s) = 4 * N.of_nat (length (b_words (s_wb s)))) by lia.
-    rewrite !andb_true_r.
+    assert (Hfn : firstn (N.to_nat (b_fill (s_wb s) / 4)) (b_words (s_wb s)) = b_words (s_wb s)).
+    { apply firstn_all2. rewrite Hfl. replace (4 * N.of_nat (length (b_words (s_wb s))) / 4)
+        with (N.of_nat (length (b_words (s_wb s)))) by lia. rewrite Nat2N.id. lia. }
+    rewrite Hfn. rewrite !andb_true_r.
     destruct (stream_cases i Hs) as [Hv|[Hv|[Hv Hl]]].
     - rewrite Hv. change (negb (0 =? 0)) with false. change (N.testbit 0 0) with false. cbn [andb negb].
       split; [|split].
@@ -287,16 +297,797 @@ Section Inv.
     destruct (i_hsdone i && negb (r_gen r)); [discriminate|].
     split; [reflexivity|]. split; [exact Eg|].
     destruct (r_to_us ep i) eqn:Eu.
-    2:{ left. split; [reflexivity|]. inversion H. reflexivity. }
+    2:{ left. split; [reflexivity|]. apply some_inj in H. symmetry; exact H. }
     right. split; [reflexivity|].
     destruct (r_req r) eqn:Er; [discriminate|]. destruct (r_fly r) eqn:Ef; [discriminate|].
     destruct (r_nrdy r) eqn:En; [discriminate|]. destruct (r_gen r) eqn:Egen; [discriminate|]. cbn [orb] in H.
     repeat (split; [reflexivity|]).
     destruct (r_out r) eqn:Eo.
     - fold (retry_c r i) in H. destruct (retry_c r i) eqn:Ec.
-      + left. inversion H. repeat split; reflexivity.
+      + left. apply some_inj in H. split; [reflexivity|]. split; [reflexivity|]. symmetry; exact H.
       + right; left. destruct (take_pkt mps (r_pend r)) as [[p rest]|] eqn:Et; [|discriminate].
-        inversion H. repeat split; try reflexivity. exists p, rest. split; reflexivity.
-    - right; right. destruct (i_nump i =? 0) eqn:En0; [discriminate|]. inversion H. repeat split; reflexivity.
+        apply some_inj in H. split; [reflexivity|]. split; [reflexivity|]. exists p, rest.
+        split; [reflexivity | symmetry; exact H].
+    - right; right. destruct (i_nump i =? 0) eqn:En0; [discriminate|]. apply some_inj in H.
+      split; [reflexivity|]. split; [reflexivity|]. symmetry; exact H.
   Qed.
+
+  (* ---- the referee's judgement when the tx stream is quiet ---- *)
+  Definition gen_next (r : ref_state) (i : N) (o : ss_out) : bool :=
+    if erdy_acc i o || nrdy_acc i o then true else r_gen r && negb (i_hsdone i).
+
+  Lemma judge_quiet : forall r i o, r_fly r = None -> o_valid o = 0 ->
+    judge mps ep r i o =
+    (set_ref (r_pend r ++ accepted_items i o) (r_exp r) (r_out r || o_zlp o)
+             (if o_zlp o || nrdy_acc i o then None else match r_req r with Some k => Some (k + 1) | None => None end)
+             None ((r_nrdy r || nrdy_acc i o) && negb (erdy_acc i o)) (gen_next r i o),
+     ck_zlp mps ep r o && ck_nrdy mps ep r i o && ck_erdy mps ep r i o && ck_erdy_live mps r i o &&
+     negb (o_zlp o && nrdy_acc i o) &&
+     match r_req r with Some k => o_zlp o || nrdy_acc i o || (k <? 2) | None => true end).
+  Proof.
+    intros r i o Hf Hv. unfold judge, ck_start, ck_word, ck_one, ck_deadline, answered, starts, fly_now, gen_next.
+    rewrite Hf, Hv. change (0 =? 0) with true. cbn [negb]. rewrite !orb_false_r, !andb_false_r. cbn [negb andb].
+    rewrite !andb_true_r. reflexivity.
+  Qed.
+
+  (* ---- one step ---- *)
+  Definition step_goal (s : ss_state) (r : ref_state) (i : N) : Prop :=
+    match ref_step mps ep sb r i (ss_outputs mps ep sb s i) with
+    | None => True
+    | Some (r', ok) => ok = true /\ Inv (ss_next mps ep sb s i) r'
+    end.
+
+  Lemma in_token_us : forall i, in_token ep i = r_to_us ep i && negb (i_nump i =? 0).
+  Proof. reflexivity. Qed.
+
+  Lemma out_quiet : forall s i, s_ov s = 0 -> o_valid (ss_outputs mps ep sb s i) = 0.
+  Proof. intros. exact H. Qed.
+
+  Lemma empty_wbwf : wbwf {| b_words := []; b_fill := 0; b_ended := false |}.
+  Proof. unfold wbwf, fits. cbn. repeat split; try lia; try discriminate; reflexivity. Qed.
+
+  (* a write buffer that has just been completed by the word of this cycle *)
+  Lemma completed_complete : forall s i, wbwf (s_wb s) -> wbwf (wb_after mps s i) -> stream_ok i = true ->
+    wb_ready mps (s_wb s) = true -> completing mps s i = true -> complete (wb_after mps s i).
+  Proof.
+    intros s i Hw Hw' Hs Hr Hc. apply closed_complete; [exact Hw'|].
+    destruct (write_step s i (ss_outputs mps ep sb s i) Hw Hs eq_refl) as [_ [_ H]].
+    rewrite (H Hr), Hc. reflexivity.
+  Qed.
+
+  Lemma step_wfd : forall s r i, s_fsm s = WAIT_FOR_DATA -> Inv s r -> step_goal s r i.
+  Proof.
+    intros s r i Hfsm [Hseq [Hwb HI]]. rewrite Hfsm in HI.
+    destruct HI as [Hp [Hrdy [Hrf [Hout [Hreq [Hfly [Hnrdy [Hov Hpos]]]]]]]].
+    unfold step_goal, ref_step. destruct (env_phase mps ep sb r i) as [r1|] eqn:Eenv; [|exact I].
+    apply env_phase_cases in Eenv as [Hs [Hhr Hc]].
+    pose proof (write_step s i (ss_outputs mps ep sb s i) Hwb Hs eq_refl) as [Hwb' [Hit Hrd']].
+    specialize (Hrd' Hrdy).
+    pose proof (take_open _ Hwb Hrdy) as Hopen.
+    assert (Ez : o_zlp (ss_outputs mps ep sb s i) = false)
+      by (unfold ss_outputs, zlp_now; rewrite Hfsm; reflexivity).
+    assert (En : o_nrdy (ss_outputs mps ep sb s i) = in_token ep i)
+      by (unfold ss_outputs, nrdy_now; rewrite Hfsm; reflexivity).
+    assert (Ee : o_erdy (ss_outputs mps ep sb s i) = false)
+      by (unfold ss_outputs; rewrite Hfsm; reflexivity).
+    assert (Eh : o_hoep (ss_outputs mps ep sb s i) = ep mod 128) by reflexivity.
+    destruct Hc as [[Hu Hr1]|[Hu [_ [_ [Hn0 [Hg0 Hc]]]]]].
+    - (* no transaction packet for us *)
+      subst r1. rewrite judge_quiet by assumption.
+      assert (Hit' : in_token ep i = false) by (rewrite in_token_us, Hu; reflexivity).
+      unfold ck_zlp, ck_nrdy, ck_erdy, ck_erdy_live, gen_next, nrdy_acc, erdy_acc, nxt.
+      rewrite Ez, En, Ee, Hit', Hreq, Hp, Hopen, Hout, Hnrdy. cbn [andb orb negb is_some]. rewrite !andb_false_r.
+      split; [reflexivity|]. rewrite orb_false_r, andb_true_r.
+      unfold Inv, ss_next. rewrite Hfsm, Hit', orb_false_r.
+      destruct (completing mps s i) eqn:Ecomp.
+      + pose proof (completed_complete s i Hwb Hwb' Hs Hrdy Ecomp) as Hcomp.
+        destruct (s_erdy s) eqn:Eerdy; cbn [upd set_ref s_fsm s_seq s_wb s_rb s_erdy s_ov s_pos r_exp r_pend r_out r_req r_fly r_nrdy];
+          (split; [exact Hseq|]); (split; [rewrite Hrf; exact empty_wbwf|]);
+          rewrite Hit, Hrf; unfold bitems at 2; cbn [b_words b_fill b_ended witems app]; rewrite app_nil_r;
+          conjs; done1.
+      + cbn [upd set_ref s_fsm s_seq s_wb s_rb s_erdy s_ov s_pos r_exp r_pend r_out r_req r_fly r_nrdy].
+        split; [exact Hseq|]. split; [exact Hwb'|]. rewrite Hit, Hrd'. cbn [negb].
+        conjs; done1.
+    - (* an ACK TP for us: can only be an IN request, and is answered NRDY *)
+      rewrite Hout in Hc. destruct Hc as [[Hc _]|[[Hc _]|[_ [Hnump Hr1]]]]; try discriminate.
+      subst r1. rewrite judge_quiet by (try reflexivity; assumption).
+      assert (Hit' : in_token ep i = true) by (rewrite in_token_us, Hu, Hnump; reflexivity).
+      rewrite Hg0 in Hhr. cbn [negb] in Hhr.
+      unfold ck_zlp, ck_nrdy, ck_erdy, ck_erdy_live, gen_next, nrdy_acc, erdy_acc, nxt.
+      rewrite Ez, En, Ee, Eh, Hit', Hhr.
+      cbn [set_ref r_exp r_pend r_out r_req r_fly r_nrdy r_gen andb orb negb is_some].
+      rewrite Hp, Hopen, N.eqb_refl. cbn [andb orb negb is_some].
+      split; [reflexivity|].
+      unfold Inv, ss_next. rewrite Hfsm, Hit', orb_true_r.
+      destruct (completing mps s i) eqn:Ecomp.
+      + pose proof (completed_complete s i Hwb Hwb' Hs Hrdy Ecomp) as Hcomp.
+        cbn [upd set_ref s_fsm s_seq s_wb s_rb s_erdy s_ov s_pos r_exp r_pend r_out r_req r_fly r_nrdy].
+        split; [exact Hseq|]. split; [rewrite Hrf; exact empty_wbwf|].
+        rewrite Hit, Hrf. unfold bitems at 2. cbn [b_words b_fill b_ended witems app]. rewrite app_nil_r.
+        conjs; done1.
+      + cbn [upd set_ref s_fsm s_seq s_wb s_rb s_erdy s_ov s_pos r_exp r_pend r_out r_req r_fly r_nrdy].
+        split; [exact Hseq|]. split; [exact Hwb'|]. rewrite Hit, Hrd'. cbn [negb].
+        conjs; done1.
+  Qed.
+
+  Ltac cbn_st := cbn [upd set_ref s_fsm s_seq s_wb s_rb s_erdy s_ov s_pos s_lpz s_of s_ol s_op
+                      r_exp r_pend r_out r_req r_fly r_nrdy r_gen].
+
+  Lemma step_req : forall s r i, s_fsm s = REQUEST_IN_TOKEN -> Inv s r -> step_goal s r i.
+  Proof.
+    intros s r i Hfsm [Hseq [Hwb HI]]. rewrite Hfsm in HI.
+    destruct HI as [Hp [Hcomp [Hout [Hreq [Hfly [Hnrdy [Herdy [Hov Hpos]]]]]]]].
+    unfold step_goal, ref_step. destruct (env_phase mps ep sb r i) as [r1|] eqn:Eenv; [|exact I].
+    apply env_phase_cases in Eenv as [Hs [Hhr Hc]].
+    pose proof (write_step s i (ss_outputs mps ep sb s i) Hwb Hs eq_refl) as [Hwb' [Hit _]].
+    assert (Ez : o_zlp (ss_outputs mps ep sb s i) = false)
+      by (unfold ss_outputs, zlp_now; rewrite Hfsm; reflexivity).
+    assert (En : o_nrdy (ss_outputs mps ep sb s i) = false)
+      by (unfold ss_outputs, nrdy_now; rewrite Hfsm; reflexivity).
+    assert (Ee : o_erdy (ss_outputs mps ep sb s i) = true)
+      by (unfold ss_outputs; rewrite Hfsm; reflexivity).
+    assert (Eh : o_hoep (ss_outputs mps ep sb s i) = ep mod 128) by reflexivity.
+    destruct Hc as [[Hu Hr1]|[Hu [_ [_ [Hn0 _]]]]]; [|rewrite Hn0 in Hnrdy; discriminate].
+    subst r1. rewrite judge_quiet by assumption.
+    unfold ck_zlp, ck_nrdy, ck_erdy, ck_erdy_live, gen_next, nrdy_acc, erdy_acc, nxt.
+    rewrite Ez, En, Ee, Eh, Hreq, Hp, (take_complete _ _ Hcomp), Hout, Hnrdy, N.eqb_refl.
+    cbn [andb orb negb is_some].
+    split; [destruct (i_hsready i); reflexivity|].
+    unfold Inv, ss_next. rewrite Hfsm.
+    destruct (i_hsready i) eqn:Ehr; cbn_st; (split; [exact Hseq|]); (split; [exact Hwb'|]);
+      rewrite Hit, app_assoc; conjs; done1.
+  Qed.
+
+  Lemma zlp_pending_items : forall b, zlp_pending b -> bitems b = [E] /\ set_ended b false = buf_empty.
+  Proof.
+    intros b [Hf [Hw He]]. unfold bitems, set_ended, buf_empty. rewrite Hf, Hw, He. split; reflexivity.
+  Qed.
+
+  Lemma complete_fill_nz : forall b, complete b -> (b_fill b =? 0) = false.
+  Proof. intros b [_ [H _]]. apply N.eqb_neq. lia. Qed.
+
+  Lemma step_wts : forall s r i, s_fsm s = WAIT_TO_SEND -> Inv s r -> step_goal s r i.
+  Proof.
+    intros s r i Hfsm [Hseq [Hwb HI]]. rewrite Hfsm in HI.
+    destruct HI as [Hp [Hrb [Hout [Hreq [Hfly [Hnrdy [Herdy [Hov Hpos]]]]]]]].
+    unfold step_goal, ref_step. destruct (env_phase mps ep sb r i) as [r1|] eqn:Eenv; [|exact I].
+    apply env_phase_cases in Eenv as [Hs [Hhr Hc]].
+    pose proof (write_step s i (ss_outputs mps ep sb s i) Hwb Hs eq_refl) as [Hwb' [Hit _]].
+    assert (Ez : o_zlp (ss_outputs mps ep sb s i) = in_token ep i && (b_fill (s_rb s) =? 0))
+      by (unfold ss_outputs, zlp_now; rewrite Hfsm; reflexivity).
+    assert (En : o_nrdy (ss_outputs mps ep sb s i) = false)
+      by (unfold ss_outputs, nrdy_now; rewrite Hfsm; reflexivity).
+    assert (Ee : o_erdy (ss_outputs mps ep sb s i) = false)
+      by (unfold ss_outputs; rewrite Hfsm; reflexivity).
+    assert (Esq : o_seq (ss_outputs mps ep sb s i) = r_exp r)
+      by (unfold ss_outputs, acked_now; rewrite Hfsm; exact Hseq).
+    assert (Eep : o_ep (ss_outputs mps ep sb s i) = ep mod 16) by reflexivity.
+    assert (Edir : o_dir (ss_outputs mps ep sb s i) = true) by reflexivity.
+    destruct Hc as [[Hu Hr1]|[Hu [_ [_ [Hn0 [Hg0 Hc]]]]]].
+    - subst r1. rewrite judge_quiet by assumption.
+      assert (Hit' : in_token ep i = false) by (rewrite in_token_us, Hu; reflexivity).
+      unfold ck_zlp, ck_nrdy, ck_erdy, ck_erdy_live, gen_next, nrdy_acc, erdy_acc, nxt.
+      rewrite Ez, En, Ee, Hit', Hreq, Hout, Hnrdy. cbn [andb orb negb is_some].
+      split; [reflexivity|].
+      unfold Inv, ss_next. rewrite Hfsm, Hit'. cbn_st.
+      split; [exact Hseq|]. split; [exact Hwb'|]. rewrite Hit, app_assoc, Hp. conjs; done1.
+    - rewrite Hout in Hc. destruct Hc as [[Hc _]|[[Hc _]|[_ [Hnump Hr1]]]]; try discriminate.
+      subst r1. rewrite judge_quiet by (try reflexivity; assumption).
+      assert (Hit' : in_token ep i = true) by (rewrite in_token_us, Hu, Hnump; reflexivity).
+      unfold ck_zlp, ck_nrdy, ck_erdy, ck_erdy_live, gen_next, nrdy_acc, erdy_acc, nxt, hdr_ok.
+      rewrite Ez, En, Ee, Esq, Eep, Edir, Hit', (out_quiet s i Hov). cbn_st. rewrite Hp.
+      destruct Hrb as [Hcomp|Hz].
+      + (* a data packet is held: it will be sent *)
+        rewrite (complete_fill_nz _ Hcomp). cbn [andb orb negb is_some N.ltb N.compare].
+        split; [reflexivity|].
+        unfold Inv, ss_next. rewrite Hfsm, Hit', (complete_fill_nz _ Hcomp). cbn_st.
+        split; [exact Hseq|]. split; [exact Hwb'|]. rewrite Hit, app_assoc. conjs; try done1.
+        left. conjs; done1.
+      + (* the zero-length packet that ends the transfer *)
+        destruct (zlp_pending_items _ Hz) as [Hzi Hze]. destruct Hz as [Hzf _].
+        rewrite Hzf, Hzi. cbn [app]. rewrite take_zlp, !N.eqb_refl. cbn [andb orb negb is_some].
+        split; [reflexivity|].
+        unfold Inv, ss_next. rewrite Hfsm, Hit', Hzf, Hze. cbn_st. change (0 =? 0) with true. cbn_st.
+        split; [exact Hseq|]. split; [exact Hwb'|]. rewrite Hit.
+        conjs; done1.
+  Qed.
+
+  (* ---- sending ---- *)
+  Lemma vmask_nz : forall n, 1 <= n <= 4 -> (vmask n =? 0) = false.
+  Proof.
+    intros n H. assert (n = 1 \/ n = 2 \/ n = 3 \/ n = 4) as [->|[->|[->| ->]]] by lia; reflexivity.
+  Qed.
+
+  Lemma ov_eq : forall fill k, 4 * k < fill ->
+    (if fill <=? (k + 1) * 4 then vmask (if fill mod 4 =? 0 then 4 else fill mod 4) else 15) =
+    vmask (N.min 4 (fill - 4 * k)).
+  Proof.
+    intros fill k H. destruct (fill <=? (k + 1) * 4) eqn:E.
+    - apply N.leb_le in E. f_equal. destruct (fill mod 4 =? 0) eqn:E4.
+      + apply N.eqb_eq in E4. lia.
+      + apply N.eqb_neq in E4. lia.
+    - apply N.leb_gt in E. replace (N.min 4 (fill - 4 * k)) with 4 by lia. reflexivity.
+  Qed.
+
+  Lemma last_word_len : forall ws fill k, fits ws fill -> (k < length ws)%nat ->
+    (fill <=? (N.of_nat k + 1) * 4) = (S k =? length ws)%nat.
+  Proof.
+    intros ws fill k [H1 H2] Hk.
+    destruct (S k =? length ws)%nat eqn:E.
+    - apply Nat.eqb_eq in E. apply N.leb_le. lia.
+    - apply Nat.eqb_neq in E. apply N.leb_gt. lia.
+  Qed.
+
+  Lemma item_bytes_range : forall ws fill k, fits ws fill -> (k < length ws)%nat ->
+    4 * N.of_nat k < fill /\ 1 <= N.min 4 (fill - 4 * N.of_nat k) <= 4.
+  Proof. intros ws fill k [H1 H2] Hk. lia. Qed.
+
+  Lemma judge_flying : forall r i o f x n rest,
+    o_zlp o = false -> o_nrdy o = false -> o_erdy o = false -> r_nrdy r = false ->
+    fly_now mps r o = Some (f, W x n :: rest) ->
+    (starts r o = true -> r_req r = Some 2 /\ ck_start mps ep r o = true) ->
+    (starts r o = false -> r_req r = None) ->
+    o_valid o = vmask n -> o_payload o = x -> o_first o = f ->
+    o_last o = (match rest with [] => true | _ => false end) ->
+    judge mps ep r i o =
+    (set_ref (r_pend r ++ accepted_items i o) (r_exp r) (r_out r || starts r o) None
+             (if i_txready i then match rest with [] => None | _ => Some (false, rest) end
+              else Some (f, W x n :: rest))
+             false (r_gen r && negb (i_hsdone i)), true).
+  Proof.
+    intros r i o f x n rest Hz Hn He Hnr Hfly Hst Hnst Hv Hpl Hfi Hla.
+    unfold judge, ck_word, ck_zlp, ck_nrdy, ck_erdy, ck_erdy_live, ck_one, ck_deadline, answered, nrdy_acc, erdy_acc.
+    rewrite Hfly, Hz, Hn, He, Hnr, Hv, Hpl, Hfi, Hla, !N.eqb_refl, !eqb_reflx.
+    cbn [andb orb negb]. rewrite !andb_true_r.
+    destruct (starts r o) eqn:Es.
+    - destruct (Hst eq_refl) as [Hq Hck]. rewrite Hq, Hck, orb_false_r. reflexivity.
+    - rewrite (Hnst eq_refl). rewrite !orb_false_r.
+      assert (Hck : ck_start mps ep r o = true) by (unfold ck_start; rewrite Es; reflexivity).
+      rewrite Hck. reflexivity.
+  Qed.
+
+  Lemma fly_facts : forall s r i k l, complete (s_rb s) -> r_pend r = bitems (s_rb s) ++ l ->
+    s_seq s = r_exp r -> o_seq (ss_outputs mps ep sb s i) = s_seq s ->
+    (k < length (b_words (s_rb s)))%nat -> reg_holds s k -> fly_rel s r k ->
+    let o := ss_outputs mps ep sb s i in
+    fly_now mps r o = Some ((k =? 0)%nat, W (nth k (b_words (s_rb s)) 0) (N.min 4 (b_fill (s_rb s) - 4 * N.of_nat k))
+                                          :: skipn (S k) (rb_items s)) /\
+    (starts r o = true -> r_req r = Some 2 /\ ck_start mps ep r o = true) /\
+    (starts r o = false -> r_req r = None) /\
+    r_out r || starts r o = true.
+  Proof.
+    intros s r i k l Hcomp Hp Hseq Hoseq Hk [Hop [Hov [Hof Hol]]] Hrel o. subst o.
+    pose proof Hcomp as [Hfits [Hfill _]].
+    destruct (item_bytes_range _ _ _ Hfits Hk) as [Hk4 Hn].
+    assert (Hvz : (o_valid (ss_outputs mps ep sb s i) =? 0) = false)
+      by (unfold ss_outputs; cbn [o_valid]; rewrite Hov; apply vmask_nz; exact Hn).
+    destruct Hrel as [[Hfly [Hreq Hout]]|[Hk0 [Hfly Hreq]]].
+    - unfold fly_now, starts. rewrite Hfly. unfold rb_items. rewrite (skipn_witems _ _ _ Hk Hfits).
+      split; [reflexivity|]. split; [intro; discriminate|]. split; [intros _; exact Hreq|].
+      rewrite Hout. reflexivity.
+    - subst k. unfold fly_now, starts, nxt. rewrite Hfly, Hvz, Hp, (take_complete _ _ Hcomp). cbn [negb].
+      split; [|split; [|split]].
+      + f_equal. f_equal. unfold rb_items. rewrite <- (skipn_witems _ _ _ Hk Hfits). reflexivity.
+      + intros _. split; [exact Hreq|]. unfold ck_start, starts, nxt, hdr_ok.
+        rewrite Hfly, Hvz, Hp, (take_complete _ _ Hcomp), Hreq, (pkt_bytes_witems _ _ Hfits). cbn [negb is_some andb].
+        rewrite Hoseq, Hseq. unfold ss_outputs. cbn [o_length o_ep o_dir].
+        rewrite !N.eqb_refl. replace (b_fill (s_rb s) =? 0) with false by (symmetry; apply N.eqb_neq; lia).
+        reflexivity.
+      + intro; discriminate.
+      + apply orb_true_r.
+  Qed.
+
+  Lemma skipn_S_nil : forall ws fill k, S k = length ws -> skipn (S k) (witems ws fill) = [].
+  Proof. intros ws fill k H. rewrite H. apply skipn_all_witems. Qed.
+
+  Lemma skipn_S_cons : forall ws fill k, (S k < length ws)%nat ->
+    match skipn (S k) (witems ws fill) with [] => true | _ => false end = false.
+  Proof.
+    intros ws fill k H. destruct (skipn (S k) (witems ws fill)) eqn:E; [|reflexivity].
+    apply (f_equal (@length item)) in E. rewrite skipn_length, witems_length in E. simpl in E. lia.
+  Qed.
+
+  Lemma step_send : forall s r i, s_fsm s = SEND_PACKET -> Inv s r -> step_goal s r i.
+  Proof.
+    intros s r i Hfsm [Hseq [Hwb HI]]. rewrite Hfsm in HI.
+    destruct HI as [Hp [Hcomp [Hnrdy [Herdy [Hlpz Hsub]]]]].
+    unfold step_goal, ref_step. destruct (env_phase mps ep sb r i) as [r1|] eqn:Eenv; [|exact I].
+    apply env_phase_cases in Eenv as [Hs [Hhr Hc]].
+    pose proof (write_step s i (ss_outputs mps ep sb s i) Hwb Hs eq_refl) as [Hwb' [Hit _]].
+    pose proof Hcomp as [Hfits [Hfill _]].
+    assert (Ez : o_zlp (ss_outputs mps ep sb s i) = false)
+      by (unfold ss_outputs, zlp_now; rewrite Hfsm; reflexivity).
+    assert (En : o_nrdy (ss_outputs mps ep sb s i) = false)
+      by (unfold ss_outputs, nrdy_now; rewrite Hfsm; reflexivity).
+    assert (Ee : o_erdy (ss_outputs mps ep sb s i) = false)
+      by (unfold ss_outputs; rewrite Hfsm; reflexivity).
+    assert (Esq : o_seq (ss_outputs mps ep sb s i) = s_seq s)
+      by (unfold ss_outputs, acked_now; rewrite Hfsm; reflexivity).
+    assert (Hnous : r1 = r).
+    { destruct Hc as [[_ H]|[_ [Hq [Hf _]]]]; [exact H|]. exfalso.
+      destruct Hsub as [[_ [_ [_ Hq']]]|[k [_ [_ [_ [[Hf' _]|[_ [_ Hq']]]]]]]]; congruence. }
+    subst r1. clear Hc.
+    destruct Hsub as [[Hpos [Hov [Hfly Hreq]]]|[k [Hpos [Hk [Hreg Hrel]]]]].
+    - (* the first word is fetched *)
+      rewrite judge_quiet by assumption.
+      unfold ck_zlp, ck_nrdy, ck_erdy, ck_erdy_live, gen_next, nrdy_acc, erdy_acc, nxt.
+      rewrite Ez, En, Ee, Hreq, Hnrdy. cbn [andb orb negb is_some]. split; [reflexivity|].
+      assert (H0 : (0 < length (b_words (s_rb s)))%nat) by (destruct Hfits; lia).
+      unfold Inv, ss_next. rewrite Hfsm. unfold tx_free, last_word. rewrite Hov, Hpos. change (0 =? 0) with true.
+      cbn [orb]. rewrite (ov_eq _ 0) by lia. change (0 + 1) with (N.of_nat 0 + 1).
+      rewrite (last_word_len _ _ 0%nat Hfits H0).
+      destruct (1 =? length (b_words (s_rb s)))%nat eqn:El; cbn_st; rewrite Hlpz;
+        (split; [exact Hseq|]); (split; [exact Hwb'|]); rewrite Hit, app_assoc, Hp.
+      + conjs; try done1. right. exists 0%nat. split; [apply Nat.eqb_eq; exact El|].
+        split; [unfold reg_holds; cbn_st; rewrite El; conjs; reflexivity|].
+        right. cbn_st. conjs; reflexivity.
+      + conjs; try done1. right. exists 0%nat. apply Nat.eqb_neq in El. split; [reflexivity|]. split; [lia|].
+        split; [unfold reg_holds; cbn_st; conjs; try reflexivity; symmetry; apply Nat.eqb_neq; exact El|].
+        right. cbn_st. conjs; reflexivity.
+    - (* word k is on offer *)
+      assert (Hk' : (k < length (b_words (s_rb s)))%nat) by lia.
+      destruct (fly_facts s r i k _ Hcomp Hp Hseq Esq Hk' Hreg Hrel) as [Hfn [Hst [Hnst Hout']]].
+      pose proof Hreg as [Hop [Hov [Hof Hol]]].
+      destruct (item_bytes_range _ _ _ Hfits Hk') as [Hk4 Hn].
+      rewrite (judge_flying r i _ _ _ _ _ Ez En Ee Hnrdy Hfn Hst Hnst Hov Hop Hof)
+        by (unfold ss_outputs; cbn [o_last]; rewrite Hol; unfold rb_items; rewrite skipn_S_cons by exact Hk;
+            apply Nat.eqb_neq; lia).
+      split; [reflexivity|]. rewrite Hout'. unfold rb_items.
+      unfold Inv, ss_next. rewrite Hfsm. unfold tx_free, last_word. rewrite Hov, (vmask_nz _ Hn), Hpos. cbn [orb].
+      destruct (i_txready i) eqn:Etx.
+      + (* accepted: the next word is fetched *)
+        assert (HSk : (S k < length (b_words (s_rb s)))%nat) by exact Hk.
+        rewrite (ov_eq _ (N.of_nat (S k))) by (destruct (item_bytes_range _ _ _ Hfits HSk); assumption).
+        rewrite (last_word_len _ _ (S k) Hfits HSk), Nat2N.id.
+        replace (N.of_nat (S k) =? 0) with false by (symmetry; apply N.eqb_neq; lia).
+        destruct (S (S k) =? length (b_words (s_rb s)))%nat eqn:El; cbn_st; rewrite Hlpz;
+          (split; [exact Hseq|]); (split; [exact Hwb'|]); rewrite Hit, app_assoc, Hp;
+          destruct (skipn (S k) (witems (b_words (s_rb s)) (b_fill (s_rb s)))) as [|it rest] eqn:Esk;
+          try (apply (f_equal (@length item)) in Esk; rewrite skipn_length, witems_length in Esk; simpl in Esk; lia).
+        * conjs; try done1. right. exists (S k). split; [apply Nat.eqb_eq; exact El|].
+          split; [unfold reg_holds; cbn_st; rewrite El; conjs; reflexivity|].
+          left. cbn_st. unfold rb_items. cbn_st. rewrite Esk. conjs; reflexivity.
+        * conjs; try done1. right. exists (S k). apply Nat.eqb_neq in El. split; [rewrite !Nat2N.inj_succ; lia|].
+          split; [lia|].
+          split; [unfold reg_holds; cbn_st; conjs; try reflexivity; symmetry; apply Nat.eqb_neq; exact El|].
+          left. cbn_st. unfold rb_items. cbn_st. rewrite Esk. conjs; reflexivity.
+      + (* not accepted: the word stays *)
+        cbn_st. split; [exact Hseq|]. split; [exact Hwb'|]. rewrite Hit, app_assoc, Hp.
+        conjs; try done1. right. exists k. split; [reflexivity|]. split; [exact Hk|].
+        split; [unfold reg_holds; cbn_st; conjs; assumption || reflexivity|].
+        left. unfold rb_items. cbn_st. rewrite (skipn_witems _ _ _ Hk' Hfits). conjs; reflexivity.
+  Qed.
+
+  (* ---- waiting for the host's ACK ---- *)
+  Lemma is_retry_eq : forall s r i, s_seq s = r_exp r -> is_retry sb s i = retry_c r i.
+  Proof. intros s r i H. unfold is_retry, retry_c, advancing, next_seq. rewrite H. reflexivity. Qed.
+
+  Lemma bitems_empty : bitems buf_empty = [].
+  Proof. reflexivity. Qed.
+
+  (* the host acknowledged the outstanding packet and no zero-length packet has to follow:
+     what is left behind the acknowledged packet is the write buffer's content *)
+  Lemma ack_next : forall s r i,
+    s_fsm s = WAIT_FOR_ACK -> s_seq s = r_exp r -> wbwf (s_wb s) -> s_erdy s = false -> s_ov s = 0 ->
+    stream_ok i = true -> r_to_us ep i = true -> is_retry sb s i = false -> follow_zlp mps s = false ->
+    i_hsready i = true ->
+    let r1 := set_ref (bitems (s_wb s)) ((r_exp r + 1) mod 2 ^ sb) false
+                      (if i_nump i =? 0 then None else Some 0) None false false in
+    let (r', ok) := judge mps ep r1 i (ss_outputs mps ep sb s i) in
+    ok = true /\ Inv (ss_next mps ep sb s i) r'.
+  Proof.
+    intros s r i Hfsm Hseq Hwb Herdy Hov Hs Hu Hretry Hfz Hhr r1.
+    pose proof (write_step s i (ss_outputs mps ep sb s i) Hwb Hs eq_refl) as [Hwb' [Hit Hrd']].
+    assert (Hus : to_us ep i = true) by exact Hu.
+    assert (Ez : o_zlp (ss_outputs mps ep sb s i) = false)
+      by (unfold ss_outputs, zlp_now; rewrite Hfsm, Hus, Hretry, Hfz; reflexivity).
+    assert (En : o_nrdy (ss_outputs mps ep sb s i) =
+                 negb (negb (wb_ready mps (s_wb s)) || completing mps s i) && is_in i)
+      by (unfold ss_outputs, nrdy_now, acked_now; rewrite Hfsm, Hus, Hretry, Hfz; reflexivity).
+    assert (Ee : o_erdy (ss_outputs mps ep sb s i) = false)
+      by (unfold ss_outputs; rewrite Hfsm; reflexivity).
+    assert (Eh : o_hoep (ss_outputs mps ep sb s i) = ep mod 128) by reflexivity.
+    rewrite judge_quiet by (try reflexivity; assumption).
+    unfold ck_zlp, ck_nrdy, ck_erdy, ck_erdy_live, gen_next, nrdy_acc, erdy_acc, nxt.
+    rewrite Ez, En, Ee, Eh, Hhr. unfold r1. cbn_st.
+    assert (Hnseq : next_seq sb s = (r_exp r + 1) mod 2 ^ sb) by (unfold next_seq; rewrite Hseq; reflexivity).
+    unfold Inv, ss_next. rewrite Hfsm, Hus, Hretry, Hfz. unfold tx_free. rewrite Hov. change (0 =? 0) with true.
+    cbn [orb]. unfold is_in.
+    destruct (negb (wb_ready mps (s_wb s)) || completing mps s i) eqn:Etog.
+    - (* the next packet is complete: swap the buffers *)
+      assert (Hcomp : complete (wb_after mps s i)).
+      { destruct (wb_ready mps (s_wb s)) eqn:Er.
+        - cbn [negb orb] in Etog. apply (completed_complete s i Hwb Hwb' Hs Er Etog).
+        - apply closed_complete; [exact Hwb'|]. unfold wb_after, wr_en. rewrite Er, andb_false_r. exact Er. }
+      destruct (i_nump i =? 0) eqn:Enp; cbn [negb andb orb is_some N.ltb N.compare]; (split; [reflexivity|]); cbn_st;
+        (split; [exact Hnseq|]); (split; [exact empty_wbwf|]); rewrite Hit, bitems_empty, app_nil_r;
+        conjs; try done1.
+      left. conjs; done1.
+    - (* nothing to send yet *)
+      apply orb_false_iff in Etog as [Er Ecomp]. apply negb_false_iff in Er.
+      pose proof (take_open _ Hwb Er) as Hopen. rewrite Hopen. specialize (Hrd' Er). rewrite Ecomp in Hrd'.
+      cbn [negb andb orb is_some]. rewrite N.eqb_refl.
+      destruct (i_nump i =? 0) eqn:Enp; cbn [negb andb orb is_some]; (split; [reflexivity|]); cbn_st;
+        (split; [exact Hnseq|]); (split; [exact Hwb'|]); rewrite Hit, Herdy; conjs; done1.
+  Qed.
+
+  Lemma acked_zlp_pending : forall b, b_ended b = true -> zlp_pending (acked b).
+  Proof. intros b H. unfold zlp_pending, acked. cbn. repeat split. exact H. Qed.
+
+  Lemma step_wfa : forall s r i, s_fsm s = WAIT_FOR_ACK -> Inv s r -> step_goal s r i.
+  Proof.
+    intros s r i Hfsm [Hseq [Hwb HI]]. rewrite Hfsm in HI. destruct HI as [Hnrdy [Herdy HI]].
+    unfold step_goal, ref_step. destruct (env_phase mps ep sb r i) as [r1|] eqn:Eenv; [|exact I].
+    apply env_phase_cases in Eenv as [Hs [Hhr Hc]].
+    pose proof (write_step s i (ss_outputs mps ep sb s i) Hwb Hs eq_refl) as [Hwb' [Hit _]].
+    assert (Ee : o_erdy (ss_outputs mps ep sb s i) = false)
+      by (unfold ss_outputs; rewrite Hfsm; reflexivity).
+    assert (Eh : o_hoep (ss_outputs mps ep sb s i) = ep mod 128) by reflexivity.
+    assert (Eep : o_ep (ss_outputs mps ep sb s i) = ep mod 16) by reflexivity.
+    assert (Edir : o_dir (ss_outputs mps ep sb s i) = true) by reflexivity.
+    destruct Hc as [[Hu Hr1]|[Hu [Hq0 [Hf0 [Hn0 [Hg0 Hc]]]]]].
+    - (* ---- no transaction packet for us ---- *)
+      subst r1. assert (Hus : to_us ep i = false) by exact Hu.
+      assert (Ez : o_zlp (ss_outputs mps ep sb s i) = false)
+        by (unfold ss_outputs, zlp_now; rewrite Hfsm, Hus; reflexivity).
+      assert (En : o_nrdy (ss_outputs mps ep sb s i) = false)
+        by (unfold ss_outputs, nrdy_now, acked_now; rewrite Hfsm, Hus; reflexivity).
+      assert (Esq : o_seq (ss_outputs mps ep sb s i) = s_seq s)
+        by (unfold ss_outputs, acked_now; rewrite Hfsm, Hus; reflexivity).
+      assert (Hquiet : s_ov s = 0 -> r_fly r = None -> r_req r = None ->
+                let (r', ok) := judge mps ep r i (ss_outputs mps ep sb s i) in
+                ok = true /\ r' = set_ref (r_pend r ++ accepted_items i (ss_outputs mps ep sb s i)) (r_exp r)
+                                         (r_out r) None None false (r_gen r && negb (i_hsdone i))).
+      { intros Hov Hfly Hreq. rewrite judge_quiet by assumption.
+        unfold ck_zlp, ck_nrdy, ck_erdy, ck_erdy_live, gen_next, nrdy_acc, erdy_acc, nxt.
+        rewrite Ez, En, Ee, Hreq, Hnrdy. cbn [andb orb negb is_some]. rewrite orb_false_r. split; reflexivity. }
+      destruct (s_lpz s) eqn:Elpz.
+      + destruct HI as [Hp [Hrb [Hov [Hfly [Hreq Hout]]]]].
+        destruct (judge mps ep r i (ss_outputs mps ep sb s i)) as [r' ok]. destruct (Hquiet Hov Hfly Hreq) as [-> ->].
+        split; [reflexivity|]. unfold Inv, ss_next. rewrite Hfsm, Hus. unfold tx_free. rewrite Hov. cbn_st.
+        rewrite Elpz. split; [exact Hseq|]. split; [exact Hwb'|]. rewrite Hit, Hp. conjs; done1.
+      + destruct HI as [Hp [Hcomp Hsub]].
+        destruct Hsub as [[Hov [Hfly [Hreq Hout]]]|[k [Hk [Hreg Hrel]]]].
+        * destruct (judge mps ep r i (ss_outputs mps ep sb s i)) as [r' ok]. destruct (Hquiet Hov Hfly Hreq) as [-> ->].
+          split; [reflexivity|]. unfold Inv, ss_next. rewrite Hfsm, Hus. unfold tx_free. rewrite Hov. cbn_st.
+          rewrite Elpz. split; [exact Hseq|]. split; [exact Hwb'|]. rewrite Hit, app_assoc, Hp. conjs; try done1.
+          left. conjs; done1.
+        * (* the last word is on offer *)
+          pose proof Hcomp as [Hfits [Hfill _]].
+          assert (Hk' : (k < length (b_words (s_rb s)))%nat) by lia.
+          destruct (fly_facts s r i k _ Hcomp Hp Hseq Esq Hk' Hreg Hrel) as [Hfn [Hst [Hnst Hout']]].
+          pose proof Hreg as [Hop [Hov [Hof Hol]]].
+          destruct (item_bytes_range _ _ _ Hfits Hk') as [Hk4 Hn].
+          rewrite (judge_flying r i _ _ _ _ _ Ez En Ee Hnrdy Hfn Hst Hnst Hov Hop Hof)
+            by (unfold ss_outputs; cbn [o_last]; rewrite Hol; unfold rb_items; rewrite (skipn_S_nil _ _ _ Hk);
+                apply Nat.eqb_eq; exact Hk).
+          split; [reflexivity|]. rewrite Hout'. unfold rb_items. rewrite (skipn_S_nil _ _ _ Hk).
+          unfold Inv, ss_next. rewrite Hfsm, Hus. unfold tx_free. rewrite Hov, (vmask_nz _ Hn). cbn [orb].
+          destruct (i_txready i) eqn:Etx; cbn_st; rewrite Elpz;
+            (split; [exact Hseq|]); (split; [exact Hwb'|]); rewrite Hit, app_assoc, Hp; conjs; try done1.
+          -- left. conjs; reflexivity.
+          -- right. exists k. split; [exact Hk|].
+             split; [unfold reg_holds; cbn_st; conjs; assumption || reflexivity|].
+             left. unfold rb_items. cbn_st. rewrite (skipn_witems _ _ _ Hk' Hfits), (skipn_S_nil _ _ _ Hk).
+             conjs; reflexivity.
+    - (* ---- an ACK TP for us ---- *)
+      assert (Hus : to_us ep i = true) by exact Hu.
+      rewrite Hg0 in Hhr. cbn [negb] in Hhr.
+      (* nothing is in flight, hence the tx register is free *)
+      assert (Hov : s_ov s = 0 /\ r_out r = true).
+      { destruct (s_lpz s); [destruct HI as [_ [_ [H [_ [_ H2]]]]]; split; assumption|].
+        destruct HI as [_ [_ [[H [_ [_ H2]]]|[k [_ [_ [[Hf _]|[_ [_ Hq]]]]]]]]]; [split; assumption| congruence | congruence]. }
+      destruct Hov as [Hov Hout]. rewrite Hout in Hc.
+      destruct Hc as [[_ [Hretry Hr1]]|[[_ [Hretry [p [rest [Htake Hr1]]]]]|[Hc _]]]; [| |discriminate].
+      + (* retry *)
+        assert (Hre : is_retry sb s i = true) by (rewrite (is_retry_eq s r i Hseq); exact Hretry).
+        assert (Ez : o_zlp (ss_outputs mps ep sb s i) = s_lpz s)
+          by (unfold ss_outputs, zlp_now; rewrite Hfsm, Hus, Hre; reflexivity).
+        assert (En : o_nrdy (ss_outputs mps ep sb s i) = false)
+          by (unfold ss_outputs, nrdy_now, acked_now; rewrite Hfsm, Hus, Hre; reflexivity).
+        assert (Esq : o_seq (ss_outputs mps ep sb s i) = r_exp r)
+          by (unfold ss_outputs, acked_now; rewrite Hfsm, Hus, Hre; exact Hseq).
+        subst r1. rewrite judge_quiet by (try reflexivity; assumption).
+        unfold ck_zlp, ck_nrdy, ck_erdy, ck_erdy_live, gen_next, nrdy_acc, erdy_acc, nxt, hdr_ok.
+        rewrite Ez, En, Ee, Esq, Eep, Edir, (out_quiet s i Hov). cbn_st.
+        unfold Inv, ss_next. rewrite Hfsm, Hus, Hre. unfold tx_free. rewrite Hov. change (0 =? 0) with true. cbn [orb].
+        destruct (s_lpz s) eqn:Elpz.
+        * destruct HI as [Hp [Hrb _]]. rewrite Hp, take_zlp, !N.eqb_refl. cbn [andb orb negb is_some].
+          split; [reflexivity|]. cbn_st.
+          split; [exact Hseq|]. split; [exact Hwb'|]. rewrite Hit. conjs; done1.
+        * destruct HI as [Hp [Hcomp _]]. cbn [andb orb negb is_some N.ltb N.compare].
+          split; [reflexivity|]. cbn_st.
+          split; [exact Hseq|]. split; [exact Hwb'|]. rewrite Hit, app_assoc, Hp. conjs; try done1.
+          left. conjs; done1.
+      + (* acknowledgement *)
+        assert (Hre : is_retry sb s i = false) by (rewrite (is_retry_eq s r i Hseq); exact Hretry).
+        destruct (s_lpz s) eqn:Elpz.
+        * (* ... of a zero-length packet *)
+          destruct HI as [Hp [Hrb _]]. rewrite Hp, take_zlp in Htake. apply some_inj in Htake.
+          assert (Hrest : rest = bitems (s_wb s)) by congruence. subst rest r1.
+          assert (Hfz : follow_zlp mps s = false)
+            by (unfold follow_zlp; rewrite Hrb; cbn [b_fill buf_empty];
+                replace (0 =? mps) with false by (symmetry; apply N.eqb_neq; lia); reflexivity).
+          exact (ack_next s r i Hfsm Hseq Hwb Herdy Hov Hs Hu Hre Hfz Hhr).
+        * destruct HI as [Hp [Hcomp _]]. rewrite Hp, (take_complete _ _ Hcomp) in Htake. apply some_inj in Htake.
+          assert (Hrest : rest = (if (b_fill (s_rb s) =? mps) && b_ended (s_rb s) then [E] else []) ++ bitems (s_wb s))
+            by congruence.
+          fold (follow_zlp mps s) in Hrest.
+          destruct (follow_zlp mps s) eqn:Hfz.
+          2:{ cbn [app] in Hrest. subst rest r1.
+              exact (ack_next s r i Hfsm Hseq Hwb Herdy Hov Hs Hu Hre Hfz Hhr). }
+          (* ... of a full packet that ended the transfer: a zero-length packet follows *)
+          cbn [app] in Hrest. subst rest r1.
+          assert (Hended : b_ended (s_rb s) = true)
+            by (unfold follow_zlp in Hfz; apply andb_true_iff in Hfz; apply Hfz).
+          assert (Ez : o_zlp (ss_outputs mps ep sb s i) = is_in i)
+            by (unfold ss_outputs, zlp_now; rewrite Hfsm, Hus, Hre, Hfz; reflexivity).
+          assert (En : o_nrdy (ss_outputs mps ep sb s i) = false)
+            by (unfold ss_outputs, nrdy_now, acked_now; rewrite Hfsm, Hus, Hre, Hfz; reflexivity).
+          assert (Hnseq : next_seq sb s = (r_exp r + 1) mod 2 ^ sb) by (unfold next_seq; rewrite Hseq; reflexivity).
+          assert (Esq : o_seq (ss_outputs mps ep sb s i) = if is_in i then (r_exp r + 1) mod 2 ^ sb else s_seq s)
+            by (unfold ss_outputs, acked_now; rewrite Hfsm, Hus, Hre, Hfz, Hnseq; reflexivity).
+          rewrite judge_quiet by (try reflexivity; assumption).
+          unfold ck_zlp, ck_nrdy, ck_erdy, ck_erdy_live, gen_next, nrdy_acc, erdy_acc, nxt, hdr_ok.
+          rewrite Ez, En, Ee, Esq, Eep, Edir, (out_quiet s i Hov). cbn_st. rewrite take_zlp.
+          unfold Inv, ss_next. rewrite Hfsm, Hus, Hre, Hfz. unfold tx_free. rewrite Hov. change (0 =? 0) with true.
+          cbn [orb]. unfold is_in.
+          destruct (i_nump i =? 0) eqn:Enp; cbn [negb andb orb is_some]; rewrite ?N.eqb_refl; cbn [negb andb orb is_some];
+            (split; [reflexivity|]); cbn_st; (split; [exact Hnseq|]); (split; [exact Hwb'|]); rewrite Hit.
+          -- destruct (zlp_pending_items _ (acked_zlp_pending _ Hended)) as [Hzi _]. rewrite Hzi.
+             conjs; try done1. right. apply acked_zlp_pending. exact Hended.
+          -- conjs; done1.
+  Qed.
+
+  Lemma step_ok : forall s r i, Inv s r -> step_goal s r i.
+  Proof.
+    intros s r i H. destruct (s_fsm s) eqn:E.
+    - apply step_wfd; assumption.
+    - apply step_req; assumption.
+    - apply step_wts; assumption.
+    - apply step_send; assumption.
+    - apply step_wfa; assumption.
+  Qed.
+
+  Lemma accepts_inv : forall tr s r, Inv s r ->
+    accepts (ss_next mps ep sb) (ss_outputs mps ep sb) (ref_step mps ep sb) s r tr = true.
+  Proof.
+    induction tr as [|i t IH]; intros s r H; [reflexivity|].
+    cbn [accepts]. pose proof (step_ok s r i H) as Hs. unfold step_goal in Hs.
+    destruct (ref_step mps ep sb r i (ss_outputs mps ep sb s i)) as [[r' ok]|]; [|reflexivity].
+    destruct Hs as [-> Hi]. cbn [andb]. apply IH. exact Hi.
+  Qed.
+
+  (* MAIN THEOREM: the referee accepts every interface trace of the endpoint model *)
+  Theorem ssin_accepted : forall tr,
+    accepts (ss_next mps ep sb) (ss_outputs mps ep sb) (ref_step mps ep sb) ss_init ref_init tr = true.
+  Proof. intro tr. apply accepts_inv. apply Inv_init. Qed.
 End Inv.
+
+(* ------------------------------------------------------------------------------------------ *)
+(* 3. Packing lemmas (for the lock-step tie)                                                   *)
+Lemma lo_pkb : forall w x rest, x < 2 ^ w -> lo w (pkb w x rest) = x.
+Proof.
+  intros w x rest H. unfold lo, pkb. rewrite N.land_lor_distr_l.
+  rewrite (N.land_ones (N.shiftl rest w)), N.shiftl_mul_pow2, N.mod_mul by (apply N.pow_nonzero; lia).
+  rewrite N.lor_0_r, N.land_ones. apply N.mod_small. exact H.
+Qed.
+
+Lemma hi_pkb : forall w x rest, x < 2 ^ w -> hi w (pkb w x rest) = rest.
+Proof.
+  intros w x rest H. unfold hi, pkb. rewrite N.shiftr_lor, N.shiftr_shiftl_l, N.sub_diag, N.shiftl_0_r by lia.
+  rewrite N.shiftr_div_pow2, N.div_small by exact H. apply N.lor_0_l.
+Qed.
+
+Lemma odd_pkb : forall (b : bool) rest, N.odd (pkb 1 (b2n b) rest) = b.
+Proof.
+  intros b rest. rewrite <- N.bit0_odd. unfold pkb. rewrite N.lor_spec, N.shiftl_spec_low by lia.
+  rewrite orb_false_r. destruct b; reflexivity.
+Qed.
+
+Lemma hi_pkb_b : forall (b : bool) rest, hi 1 (pkb 1 (b2n b) rest) = rest.
+Proof. intros. apply hi_pkb. destruct b; cbn; lia. Qed.
+
+Lemma unpackr_packr : forall w l rest, Forall (fun x => x < 2 ^ w) l ->
+  unpackr w (length l) (packr w l rest) = (l, rest).
+Proof.
+  induction l as [|x t IH]; intros rest H; [reflexivity|].
+  inversion H as [|? ? Hx Ht]; subst. cbn [length packr unpackr].
+  rewrite hi_pkb, lo_pkb by exact Hx. rewrite IH by exact Ht. reflexivity.
+Qed.
+
+Lemma dec_enc_list : forall w l rest, N.of_nat (length l) < 2 ^ 16 -> Forall (fun x => x < 2 ^ w) l ->
+  dec_list w (enc_list w l rest) = (l, rest).
+Proof.
+  intros w l rest Hl Hf. unfold dec_list, enc_list. rewrite lo_pkb, hi_pkb by exact Hl.
+  rewrite Nat2N.id. apply unpackr_packr. exact Hf.
+Qed.
+
+Definition buf_wf (b : buf) : Prop :=
+  b_fill b < 2048 /\ N.of_nat (length (b_words b)) <= 512 /\ Forall (fun x => x < 2 ^ 32) (b_words b).
+
+Definition ss_wf (s : ss_state) : Prop :=
+  s_seq s < 32 /\ s_pos s < 2048 /\ s_ov s < 16 /\ s_op s < 2 ^ 32 /\ buf_wf (s_rb s) /\ buf_wf (s_wb s).
+
+Lemma fsm_of_code : forall f, fsm_of (fsm_code f) = f.
+Proof. destruct f; reflexivity. Qed.
+
+Lemma fsm_code_lt : forall f, fsm_code f < 2 ^ 3.
+Proof. destruct f; cbn; lia. Qed.
+
+Lemma ss_dec_enc : forall s, ss_wf s -> ss_dec (ss_enc s) = s.
+Proof.
+  intros [f sq [rw rf re] [ww wf we] pos lpz erdy ov ofi ol op] [Hsq [Hpos [Hov [Hop [[Hrf [Hrl Hrw]] [Hwf [Hwl Hww]]]]]]].
+  cbn [s_seq s_pos s_ov s_op s_rb s_wb b_fill b_words] in *.
+  unfold ss_dec, ss_enc. cbn [s_fsm s_seq s_pos s_lpz s_erdy s_ov s_of s_ol s_op s_rb s_wb b_words b_fill b_ended].
+  rewrite !lo_pkb, !hi_pkb by (try apply fsm_code_lt; cbn; lia).
+  repeat (rewrite ?odd_pkb, ?hi_pkb_b, ?lo_pkb, ?hi_pkb by (try apply fsm_code_lt; cbn; lia)).
+  rewrite dec_enc_list by (try assumption; cbn; lia).
+  rewrite dec_enc_list by (try assumption; cbn; lia).
+  rewrite fsm_of_code. reflexivity.
+Qed.
+
+Lemma Forall_firstn_N : forall (P : N -> Prop) k l, Forall P l -> Forall P (firstn k l).
+Proof.
+  induction k as [|k IH]; intros l H; [constructor|]. destruct l as [|x t]; [constructor|].
+  inversion H; subst. cbn. constructor; [assumption | apply IH; assumption].
+Qed.
+
+Lemma ss_wf_init : ss_wf ss_init.
+Proof. unfold ss_wf, ss_init, buf_wf, buf_empty. cbn. repeat split; try lia; constructor. Qed.
+
+Lemma bits_lt32 : forall i, i_payload i < 2 ^ 32.
+Proof.
+  intro i. unfold i_payload, bits. rewrite N.land_ones. apply N.mod_lt. apply N.pow_nonzero. lia.
+Qed.
+
+Lemma nbytes_le : forall v, nbytes v <= 4.
+Proof.
+  intro v. unfold nbytes. destruct v as [|p]; [lia|].
+  destruct p as [[[[|[]|]|[]|]|[]|]|[]|]; lia.
+Qed.
+
+Lemma vmask_lt16 : forall n, n <= 4 -> vmask n < 16.
+Proof.
+  intros n H. assert (n = 0 \/ n = 1 \/ n = 2 \/ n = 3 \/ n = 4) as [->|[->|[->|[->| ->]]]] by lia; cbn; lia.
+Qed.
+
+Section Wf.
+  Variables (mps ep sb : N).
+  Hypothesis Hmps1k : mps <= 1024.
+  Hypothesis Hsb : sb <= 5.
+
+  Lemma buf_empty_wf : buf_wf buf_empty.
+  Proof. unfold buf_wf, buf_empty. cbn. repeat split; try lia; constructor. Qed.
+
+  Lemma wb_after_wf : forall s i, buf_wf (s_wb s) -> buf_wf (wb_after mps s i).
+  Proof.
+    intros s i [Hf [Hl Hw]]. unfold wb_after, wr_en. destruct (negb (i_valid i =? 0) && wb_ready mps (s_wb s)) eqn:E.
+    - apply andb_true_iff in E as [_ E]. unfold wb_ready in E. apply andb_true_iff in E as [E _]. apply N.leb_le in E.
+      pose proof (nbytes_le (i_valid i)). unfold buf_wf. cbn [b_fill b_words].
+      split; [lia|]. split.
+      + rewrite app_length, firstn_length. cbn [length].
+        assert (N.to_nat (b_fill (s_wb s) / 4) <= 256)%nat by lia. lia.
+      + apply Forall_app. split; [apply Forall_firstn_N; exact Hw|]. constructor; [apply bits_lt32 | constructor].
+    - repeat split; assumption.
+  Qed.
+
+  Lemma next_seq_lt : forall s, next_seq sb s < 32.
+  Proof.
+    intro s. unfold next_seq. assert (2 ^ sb <= 2 ^ 5) by (apply N.pow_le_mono_r; lia).
+    assert (0 < 2 ^ sb) by (apply N.neq_0_lt_0, N.pow_nonzero; lia).
+    pose proof (N.mod_lt (s_seq s + 1) (2 ^ sb)). change (2 ^ 5) with 32 in *. lia.
+  Qed.
+
+  Lemma nth_lt32 : forall (l : list N) k, Forall (fun x => x < 2 ^ 32) l -> nth k l 0 < 2 ^ 32.
+  Proof.
+    induction l as [|x t IH]; intros k H; [destruct k; cbn; lia|].
+    inversion H; subst. destruct k; cbn; [assumption | apply IH; assumption].
+  Qed.
+
+  Lemma ss_wf_step : forall s i, ss_wf s -> ss_wf (fst (ss_step mps ep sb s i)).
+  Proof.
+    intros s i [Hsq [Hpos [Hov [Hop [Hrb Hwb]]]]]. cbn [ss_step fst].
+    pose proof (wb_after_wf s i Hwb) as Hwb'. pose proof (next_seq_lt s) as Hns.
+    pose proof buf_empty_wf as Hbe.
+    assert (Hack : buf_wf (acked (s_rb s))) by (unfold acked, buf_wf; cbn; repeat split; try lia; constructor).
+    assert (Hack2 : buf_wf (set_ended (acked (s_rb s)) false)) by (unfold set_ended, acked, buf_wf; cbn; repeat split; try lia; constructor).
+    assert (Hse : buf_wf (set_ended (s_rb s) false)) by (destruct Hrb as [? [? ?]]; unfold set_ended, buf_wf; cbn; repeat split; assumption).
+    assert (Hnw : buf_wf {| b_words := []; b_fill := b_fill (s_rb s); b_ended := false |})
+      by (destruct Hrb as [? [? ?]]; unfold buf_wf; cbn; repeat split; try assumption; try lia; constructor).
+    assert (Hm : forall x, x mod 2048 < 2048) by (intro; apply N.mod_lt; lia).
+    assert (Hvm : forall f, vmask (if f mod 4 =? 0 then 4 else f mod 4) < 16).
+    { intro f. apply vmask_lt16. destruct (f mod 4 =? 0); [lia|]. pose proof (N.mod_lt f 4). lia. }
+    assert (Hnth : forall k, nth k (b_words (s_rb s)) 0 < 2 ^ 32) by (intro; apply nth_lt32; apply Hrb).
+    unfold ss_next, ss_wf.
+    destruct (s_fsm s);
+      repeat match goal with |- context [if ?c then _ else _] => destruct c end;
+      cbn [upd s_seq s_pos s_ov s_op s_rb s_wb]; repeat split; try assumption; try lia; try apply Hm; try apply Hvm;
+      try apply Hnth; try apply Hrb; try apply Hwb'; try apply Hbe; try apply Hack; try apply Hack2; try apply Hse; try apply Hnw;
+      try (apply vmask_lt16; pose proof (N.mod_lt (b_fill (s_rb s)) 4); lia).
+  Qed.
+End Wf.
+
+(* ------------------------------------------------------------------------------------------ *)
+(* 4. Output words                                                                             *)
+Definition out_wf (o : ss_out) : Prop :=
+  o_valid o < 16 /\ o_payload o < 2 ^ 32 /\ o_length o < 2 ^ 11 /\ o_seq o < 2 ^ 5 /\ o_ep o < 16 /\ o_hoep o < 128.
+
+Lemma b2n_lt2 : forall b, b2n b < 2.
+Proof. destruct b; cbn; lia. Qed.
+
+Lemma b2n_inj : forall a b, b2n a = b2n b -> a = b.
+Proof. destruct a, b; cbn; intros; (reflexivity || discriminate). Qed.
+
+Lemma testbit_b2n : forall w k (b : bool), (w / 2 ^ k) mod 2 = b2n b -> N.testbit w k = b.
+Proof.
+  intros w k b H. pose proof (N.testbit_spec' w k) as T. rewrite H in T.
+  destruct (N.testbit w k), b; unfold N.b2n, b2n in T; try reflexivity; discriminate.
+Qed.
+
+Lemma bits_divmod : forall x lo w, bits x lo w = (x / 2 ^ lo) mod 2 ^ w.
+Proof. intros. unfold bits. rewrite N.land_ones, N.shiftr_div_pow2. reflexivity. Qed.
+
+Lemma unpack_pack_out : forall o, out_wf o -> unpack_out (pack_out o) = o.
+Proof.
+  intros [rdy v fi la pl z len sq e d nr er he] [Hv [Hpl [Hlen [Hsq [He Hhe]]]]].
+  cbn [o_valid o_payload o_length o_seq o_ep o_hoep] in *.
+  unfold unpack_out, pack_out.
+  cbn [o_ready o_valid o_first o_last o_payload o_zlp o_length o_seq o_ep o_dir o_nrdy o_erdy o_hoep].
+  pose proof (b2n_lt2 rdy); pose proof (b2n_lt2 fi); pose proof (b2n_lt2 la); pose proof (b2n_lt2 z);
+  pose proof (b2n_lt2 d); pose proof (b2n_lt2 nr); pose proof (b2n_lt2 er).
+  set (w := b2n rdy + 2 * v + 32 * b2n fi + 64 * b2n la + 128 * pl + 2 ^ 39 * b2n z + 2 ^ 40 * len +
+            2 ^ 51 * sq + 2 ^ 56 * e + 2 ^ 60 * b2n d + 2 ^ 61 * b2n nr + 2 ^ 62 * b2n er + 2 ^ 63 * he).
+  assert (E0 : N.testbit w 0 = rdy) by (apply testbit_b2n; subst w; cbn [N.pow] in *; lia).
+  assert (E1 : bits w 1 4 = v) by (rewrite bits_divmod; subst w; cbn [N.pow] in *; lia).
+  assert (E5 : N.testbit w 5 = fi) by (apply testbit_b2n; subst w; cbn [N.pow] in *; lia).
+  assert (E6 : N.testbit w 6 = la) by (apply testbit_b2n; subst w; cbn [N.pow] in *; lia).
+  assert (E7 : bits w 7 32 = pl) by (rewrite bits_divmod; subst w; cbn [N.pow] in *; lia).
+  assert (E39 : N.testbit w 39 = z) by (apply testbit_b2n; subst w; cbn [N.pow] in *; lia).
+  assert (E40 : bits w 40 11 = len) by (rewrite bits_divmod; subst w; cbn [N.pow] in *; lia).
+  assert (E51 : bits w 51 5 = sq) by (rewrite bits_divmod; subst w; cbn [N.pow] in *; lia).
+  assert (E56 : bits w 56 4 = e) by (rewrite bits_divmod; subst w; cbn [N.pow] in *; lia).
+  assert (E60 : N.testbit w 60 = d) by (apply testbit_b2n; subst w; cbn [N.pow] in *; lia).
+  assert (E61 : N.testbit w 61 = nr) by (apply testbit_b2n; subst w; cbn [N.pow] in *; lia).
+  assert (E62 : N.testbit w 62 = er) by (apply testbit_b2n; subst w; cbn [N.pow] in *; lia).
+  assert (E63 : bits w 63 7 = he) by (rewrite bits_divmod; subst w; cbn [N.pow] in *; lia).
+  rewrite E0, E1, E5, E6, E7, E39, E40, E51, E56, E60, E61, E62, E63. reflexivity.
+Qed.
+
+Section Bridge.
+  Variables (mps ep sb : N).
+  Hypothesis Hmps1k : mps <= 1024.
+  Hypothesis Hsb : sb <= 5.
+
+  Lemma outputs_wf : forall s i, ss_wf s -> out_wf (ss_outputs mps ep sb s i).
+  Proof.
+    intros s i [Hsq [Hpos [Hov [Hop [[Hrf _] _]]]]]. unfold out_wf, ss_outputs.
+    cbn [o_valid o_payload o_length o_seq o_ep o_hoep].
+    pose proof (next_seq_lt mps sb Hmps1k Hsb s). pose proof (N.mod_lt ep 16). pose proof (N.mod_lt ep 128).
+    repeat split; try assumption; try lia.
+    destruct (acked_now ep sb s i && follow_zlp mps s && is_in i); cbn; lia.
+  Qed.
+
+  (* judging the packed words the model emits = judging its typed outputs *)
+  Lemma accepts_io_model : forall tr s r, ss_wf s ->
+    ref_accepts_io mps ep sb r (combine tr (run (ss_step mps ep sb) s tr)) =
+    accepts (ss_next mps ep sb) (ss_outputs mps ep sb) (ref_step mps ep sb) s r tr.
+  Proof.
+    induction tr as [|i t IH]; intros s r Hwf; [reflexivity|].
+    cbn [run ss_step combine ref_accepts_io accepts].
+    rewrite (unpack_pack_out _ (outputs_wf s i Hwf)).
+    destruct (ref_step mps ep sb r i (ss_outputs mps ep sb s i)) as [[r' ok]|]; [|reflexivity].
+    f_equal. apply IH. apply (ss_wf_step mps ep sb Hmps1k Hsb s i Hwf).
+  Qed.
+End Bridge.
+
+(* MAIN THEOREM, on packed interface words: whatever produces the same output words as the model is
+   accepted by the referee *)
+Theorem ssin_accepted_io : forall mps ep sb, 8 <= mps -> mps mod 4 = 0 -> mps <= 1024 -> sb <= 5 ->
+  forall tr outs, outs = run (ss_step mps ep sb) ss_init tr ->
+  ref_accepts_io mps ep sb ref_init (combine tr outs) = true.
+Proof.
+  intros mps ep sb H8 H4 H1k Hsb tr outs ->.
+  rewrite (accepts_io_model mps ep sb H1k Hsb tr ss_init ref_init ss_wf_init).
+  apply ssin_accepted; assumption.
+Qed.
